@@ -11,6 +11,42 @@ from sa.index import AnalysisError, Index  # noqa: E402
 from sa.report import Checker  # noqa: E402
 
 
+def _selftest(ck, pid):
+    """Thorough tier: mutate scratch copies of /repo/pint and confirm the rules fire (and
+    stay silent on behaviour-preserving edits). Recorded in evidence; never changes the verdict."""
+    import subprocess
+    import tempfile
+    here = os.path.dirname(os.path.dirname(os.path.abspath(__file__)))
+    runner = os.path.join(here, "selftest", "run.py")
+    if not os.path.exists(runner):
+        return
+    fd, tmp = tempfile.mkstemp(prefix="selftest-", suffix=".json")
+    os.close(fd)
+    try:
+        r = subprocess.run([sys.executable, "-B", runner, "--only", pid, "--json", tmp],
+                           capture_output=True, text=True, timeout=3000)
+        try:
+            res = json.load(open(tmp))
+        except Exception:
+            res = []
+        summary = {"mutants": len(res)}
+        for x in res:
+            summary[x["status"]] = summary.get(x["status"], 0) + 1
+        ck.extra["selftest"] = {
+            "summary": summary,
+            "results": [{"id": x["id"], "kind": x.get("kind", "break"), "status": x["status"], "expect": x.get("expect", "")} for x in res],
+            "explanation": "each mutant is a one-site edit of a scratch copy of /repo/pint; 'break' mutants must make the check exit 1 naming the expected rule instance, 'benign' mutants (behaviour-preserving refactors) must leave it silent",
+        }
+        print(f"[{pid}] selftest: {summary}")
+    except Exception as e:  # never affects the verdict
+        ck.extra["selftest"] = {"error": str(e)}
+    finally:
+        try:
+            os.unlink(tmp)
+        except OSError:
+            pass
+
+
 def main(argv):
     if not argv:
         print("usage: check <ID> [--tier quick|thorough] [--replay path]")
@@ -47,6 +83,8 @@ def main(argv):
         tb = traceback.format_exc()
         sys.stderr.write(tb)
         return ck.finish(getattr(mod, "EXPLANATION", ""), error=f"internal error {type(e).__name__}: {e}")
+    if tier == "thorough":
+        _selftest(ck, pid)
     code = ck.finish(explanation)
     if replay:
         try:
